@@ -45,7 +45,8 @@ def fnum(x):
     return int(x) if float(x) == int(x) else -12345
 
 
-def table_rows(kind, t):
+def table_rows(kind, t, limbs=False):
+    """limbs: 32-bit flags as two 16-bit limbs (TLC integers are 32-bit signed; the round-trip clauses only compare for equality)"""
     out = []
     for r in t:
         if kind == "nodes":
@@ -58,7 +59,7 @@ def table_rows(kind, t):
             out.append(dict(site=int(r.site), node=int(r.node), derived_state=[ord(c) for c in r.derived_state], time=fnum(r.time),
                             parent=int(r.parent), metadata=list(r.metadata)))
         elif kind == "individuals":
-            out.append(dict(flags=int(r.flags), location=[fnum(x) for x in r.location], parents=[int(x) for x in r.parents], metadata=list(r.metadata)))
+            out.append(dict(flags=[int(r.flags) >> 16, int(r.flags) & 0xFFFF] if limbs else int(r.flags), location=[fnum(x) for x in r.location], parents=[int(x) for x in r.parents], metadata=list(r.metadata)))
         elif kind == "populations":
             out.append(dict(metadata=list(r.metadata)))
         elif kind == "migrations":
@@ -99,7 +100,7 @@ def roundtrip_case(rng):
     for _ in range(P):
         t.populations.add_row(metadata=rb(rng))
     for j in range(I):
-        t.individuals.add_row(flags=rng.randint(0, 3), location=[float(rng.randint(-3, 3)) for _ in range(rng.randint(0, 2))],
+        t.individuals.add_row(flags=rng.choice([0, 1, 2, 3, 1 << 16, (1 << 31) - 1, 1 << 31, (1 << 32) - 1]), location=[float(rng.randint(-3, 3)) for _ in range(rng.randint(0, 2))],
                               parents=[rng.choice([p for p in range(-1, I) if p != j]) for _ in range(rng.randint(0, 2))], metadata=rb(rng))
     N = len(t.nodes)
     t.nodes.population = np.array([rng.randint(-1, P - 1) for _ in range(N)], dtype=np.int32)
@@ -132,12 +133,12 @@ def roundtrip_case(rng):
         b.seek(0)
     case = dict(mode="roundtrip", raised=0, error="")
     A = ts.dump_tables()
-    case["a"] = {k: table_rows(k, getattr(A, k)) for k in kinds}
+    case["a"] = {k: table_rows(k, getattr(A, k), limbs=True) for k in kinds}
     case["a"]["L"] = int(A.sequence_length)
     try:
         ts2 = tskit.load_text(**bufs, sequence_length=ts.sequence_length, strict=True, base64_metadata=True)
         B = ts2.dump_tables()
-        case["b"] = {k: table_rows(k, getattr(B, k)) for k in kinds}
+        case["b"] = {k: table_rows(k, getattr(B, k), limbs=True) for k in kinds}
         case["b"]["L"] = int(B.sequence_length)
     except Exception as e:
         case["raised"] = 1
